@@ -1,0 +1,20 @@
+//go:build verif
+
+package args
+
+// Contracts for the command-line layer (property C20: "nested structs force the slim template"). Comment-only file,
+// read by /verif/engine (govc).
+
+// checkOptions evaluates the options the way the backend will (HandleOptions on a scratch CodeUtils) and, when nested
+// structs are enabled under a template other than slim / raw_struct, must hand back an option list whose template
+// option is one of the two. The assertion sits at the return because "nested structs are enabled" is the scratch
+// CodeUtils' own verdict. When nested structs are off, or the template is already slim / raw_struct, the list comes
+// back unchanged.
+//@ func (a *Arguments) checkOptions(opts []plugin.Option) ([]plugin.Option, error)
+//@   requires golang.wfTable()
+//@   modifies *
+//@   ensures result1 == nil
+//@   site return assert cu.features.EnableNestedStruct ==> cu.useTemplate == "slim" || cu.useTemplate == "raw_struct" || ((exists k int :: 0 <= k && k < len(opts) && opts[k].Name == "template") && forall k int :: 0 <= k && k < len(opts) && opts[k].Name == "template" ==> opts[k].Desc == "slim")
+//@   site return assert !cu.features.EnableNestedStruct || cu.useTemplate == "slim" || cu.useTemplate == "raw_struct" ==> len(opts) == len(old(opts)) && forall k int :: 0 <= k && k < len(opts) ==> opts[k] == old(opts)[k]
+//@   loop 1 invariant cu != nil && len(opts) == len($xs) && (found <==> exists k int :: 0 <= k && k < $i && opts[k].Name == "template")
+//@   loop 1 invariant forall k int :: 0 <= k && k < $i && opts[k].Name == "template" ==> opts[k].Desc == "slim"
